@@ -178,6 +178,15 @@ def check(spec):
                 b4 = Atoms.load(p4, filetype='lmpdat', atom_format=style)
                 a.save(p5, filetype='lmpdat', atom_format=style)
                 b5 = Atoms.load(p5, filetype='lmpdat', atom_format=style)
+                # the same path written again with another structure (one atom fewer) and loaded again: what is loaded is what the file holds now
+                if n >= 2:
+                    c_ = a.copy()
+                    del c_[[n - 1]]
+                    c_.save(path, atom_format=style)
+                    b6 = Atoms.load(path, atom_format=style)
+                    if len(b6.positions) != n - 1:
+                        return "a path loaded again after it was rewritten gives %d atoms, the file now holds %d" % (len(b6.positions), n - 1)
+                    a.save(path, atom_format=style)
                 if open(p4).read() != open(path).read() or open(p5).read() != open(path).read():
                     return "Atoms.save with an explicit filetype='lmpdat' writes something else than it does to a .lmpdat path"
             for bb in (b1, b2, b3, b4, b5):
